@@ -240,6 +240,7 @@ Definition run_c04 (sub : N) (args : list (list N)) : list N :=
       | [9; now] Close while the events of a collector tick at time now are in flight
       | [10; datagram...] Close while the event of this datagram is in flight in the reader
       | [11; id] another user of the agent registers transaction id (far deadline)
+      | [12; id] the application stops transaction id through the shared agent (agent.Stop)
    result per operation: number of observations, then each observation (sorted by instance within
    the operation): write = [1; inst; time; len; crc]; handler invocation = [2; inst; h; result code; len; crc];
    fallback = [3; h; id; kind; len; crc]; connection closed = [4]; return = [5; code] *)
@@ -298,6 +299,7 @@ Definition parse_cop (f : list N) : option cop :=
   | [9; now] => Some (CTickRace (Z.of_N now))
   | 10 :: d => Some (CDeliverRace d)
   | [11; id] => Some (CForeign (tid_id (mk_tid id)))
+  | [12; id] => Some (CAppStop (tid_id (mk_tid id)))
   | _ => None
   end.
 Fixpoint run_client (c : client) (fs : list (list N)) : list N :=
